@@ -51,7 +51,10 @@ Definition check_agg (c : c19_case) (a : aggspec) : bool :=
       (* no omitted bucket is more frequent than an included one *)
       forallb (fun f => existsb (fun o => jeq (fst o) (fst f)) ob ||
                         forallb (fun o => Qle_bool (snd f) (snd o)) ob) full
-  | AHist _ i => ms_eq ob (map (fun kc => (JNum (fst kc), qnat (snd kc))) (histogram i vals))
+  | AHist _ i =>
+      (* an interval that is not positive is refused: no bucket at all (C19_hist is stated for 0 < i) *)
+      if Qle_bool i 0 then match ob with [] => true | _ => false end
+      else ms_eq ob (map (fun kc => (JNum (fst kc), qnat (snd kc))) (histogram i vals))
   | AField _ => ms_eq ob (map (fun kc => (JStr (fst kc), qnat (snd kc))) (field_buckets vals))
   | AType _ => ms_eq ob (map (fun kc => (JStr (fst kc), qnat (snd kc))) (type_buckets vals))
   | APct _ ps =>
